@@ -1,4 +1,5 @@
 import Spine.Heap
+import Spine.ExtractFilter
 open Spine Spine.Heap
 /-! Line protocol for the store / sharing model (C04, C11). One op per line, one answer per line.
 
@@ -13,6 +14,12 @@ open Spine Spine.Heap
         items = `.` or `;`-separated items, an item = comma list of value / `-`
         f?k   = N (nil pointer) | E (filter without data) | F (filter with data); f?s selector item or N; f?e elements item or N
                                             -> panic | ok=<0|1> in=<struct id> ret=<struct id|nil>
+    updl <remote> <persist> <items> <arr> <fpk> <fps> <fpe> <fdk> <fds> <fde>
+        the same call as it arrives in a datagram: the command carries a filter LIST described by <arr>, one letter
+        per entry — p the partial filter (f p*), d the delete filter (f d*), b an entry with both cmdControl tags and the
+        partial filter's data, P / D a further partial / delete filter without data, o / e an entry without cmdControl
+        resp. with an empty one — and `Cmd.ExtractFilter` (Spine.extractFilter) picks what UpdateData gets
+                                            -> as upd
     read <struct id>                        -> items
     store                                   -> items of the stored value
     dump                                    -> the items of every struct, in id order, separated by `|`
@@ -61,6 +68,21 @@ def step (st : St) (line : String) : St × String :=
     match parseBool remote, parseBool persist, parseFArg fpk fps fpe, parseFArg fdk fds fde with
     | some remote, some persist, some fp, some fd =>
       let (h', r) := updateData st.cfg st.sh st.h remote persist (parseList nw) fp fd
+      ({ st with h := h' }, match r with
+        | .panic => "panic"
+        | .done ok i o => s!"ok={if ok then 1 else 0} in={i} ret={match o with | some o => toString o | none => "nil"}")
+    | _, _, _, _ => (st, "bad-op")
+  | ["updl", remote, persist, nw, arr, fpk, fps, fpe, fdk, fds, fde] =>
+    match parseBool remote, parseBool persist, parseFArg fpk fps fpe, parseFArg fdk fds fde with
+    | some remote, some persist, some fp, some fd =>
+      let entries : List (FEntry FArg) := arr.toList.filterMap fun ch =>
+        if ch == 'p' || ch == 'b' then (if fp.isNil then none else some (.part fp))
+        else if ch == 'd' then (if fd.isNil then none else some (.del fd))
+        else if ch == 'P' then some (.part .nodata)
+        else if ch == 'D' then some (.del .nodata)
+        else some .other
+      let (xp, xd) := extractFilter entries
+      let (h', r) := updateData st.cfg st.sh st.h remote persist (parseList nw) (xp.getD .nil) (xd.getD .nil)
       ({ st with h := h' }, match r with
         | .panic => "panic"
         | .done ok i o => s!"ok={if ok then 1 else 0} in={i} ret={match o with | some o => toString o | none => "nil"}")
